@@ -81,6 +81,56 @@ Proof.
         -- destruct closed; [|reflexivity]. f_equal. lia.
 Qed.
 
+(** whatever the reader does -- including Reads that hand over nothing -- a buffer is either
+    filled with exactly the next bytes of the stream or the fill fails; never anything else *)
+Lemma fill_any zero_eof closed : forall sc want s,
+  (exists sc', fill zero_eof closed sc want s = fill_ideal closed want s sc') \/
+  (exists n r sc', fill zero_eof closed sc want s = FEof n r sc').
+Proof.
+  induction sc as [|e sc IH]; intros want s.
+  - left. destruct (fill_spec zero_eof closed [] want s) as (sc' & _ & E); [intros _; constructor|]. eauto.
+  - cbn [fill]. destruct (N.eqb_spec want 0) as [->|Hw].
+    { left. exists (e :: sc). unfold fill_ideal.
+      destruct (N.leb_spec 0 (len s)); [|lia]. now rewrite takeN_0, dropN_0. }
+    destruct s as [|x s].
+    + cbn [read1]. destruct closed.
+      * right. rewrite len_nil. cbn [N.eqb orb]. eauto.
+      * left. exists sc. unfold fill_ideal. rewrite len_nil.
+        destruct (N.leb_spec want 0); [lia|reflexivity].
+    + cbn [read1]. set (s0 := x :: s). assert (Hs0 : 0 < len s0) by (unfold s0; rewrite len_cons; lia).
+      set (n := N.min (fst e) (N.min want (len s0))).
+      assert (Hn : len (takeN n s0) = n) by (rewrite len_takeN; lia).
+      rewrite Hn. destruct (N.eqb_spec n 0) as [Hz|Hz].
+      * destruct (_ || zero_eof); [right; eauto|apply IH].
+      * destruct (N.leb_spec want n) as [Hwn|Hwn].
+        { left. assert (n = want) as Hnw by lia. exists sc. unfold fill_ideal.
+          destruct (N.leb_spec want (len s0)); [|lia]. now rewrite Hnw. }
+        destruct (IH (want - n) (dropN n s0)) as [(sc' & ->)|(m & r & sc' & ->)]; [|right; eauto].
+        left. exists sc'. unfold fill_ideal. rewrite len_dropN.
+        destruct (N.leb_spec (want - n) (len s0 - n)); destruct (N.leb_spec want (len s0)); try lia.
+        -- rewrite dropN_add, <- takeN_add. replace (n + (want - n)) with want by lia. reflexivity.
+        -- destruct closed; [|reflexivity]. f_equal. lia.
+Qed.
+
+Lemma readfrom_generic_any closed : forall bufs sc s,
+  (exists sc', readfrom_generic closed sc bufs s = fill_ideal closed (sumN bufs) s sc') \/
+  (exists n r sc', readfrom_generic closed sc bufs s = FEof n r sc').
+Proof.
+  induction bufs as [|b bs IH]; intros sc s.
+  - left. exists sc. cbn [readfrom_generic sumN]. unfold fill_ideal.
+    destruct (N.leb_spec 0 (len s)); [|lia]. now rewrite takeN_0, dropN_0.
+  - cbn [readfrom_generic sumN].
+    destruct (fill_any true closed sc b s) as [(sc1 & ->)|(n & r & sc1 & ->)]; [|right; eauto].
+    unfold fill_ideal. destruct (N.leb_spec b (len s)) as [Hb|Hb].
+    + destruct (IH sc1 (dropN b s)) as [(sc2 & ->)|(n & r & sc2 & ->)]; [|right; eauto].
+      left. exists sc2. unfold fill_ideal. rewrite len_dropN, len_takeN.
+      destruct (N.leb_spec (sumN bs) (len s - b)); destruct (N.leb_spec (b + sumN bs) (len s)); try lia.
+      * now rewrite dropN_add, <- takeN_add.
+      * destruct closed; [|reflexivity]. f_equal. lia.
+    + left. exists sc1. unfold fill_ideal.
+      destruct (N.leb_spec (b + sumN bs) (len s)); [lia|]. destruct closed; reflexivity.
+Qed.
+
 (** *** C17_fill, generic path: the nested loops of Buffers.ReadFrom *)
 Lemma readfrom_generic_spec closed : forall bufs sc s,
   pos_script sc ->
@@ -242,6 +292,35 @@ Section RecvRd.
       + destruct closed; cbn [consumed].
         * exists sc2. split; [eapply suffix_trans; eauto|]. now rewrite dropN_all by lia.
         * exists sc. split; [apply suffix_refl|]. now rewrite dropN_0.
+  Qed.
+
+  (** *** safety under any reader whatsoever on the generic path (Reads handing over nothing included):
+      recv answers as on the flat stream, or gives up the connection; it never delivers or rejects
+      anything else *)
+  Theorem recv_rd_generic_safe closed msize sc s :
+    (exists r sc', recv_rd PGeneric closed msize sc s = RR (fst (recv closed msize s)) r sc') \/
+    (exists c r sc', recv_rd PGeneric closed msize sc s = RR (ConnErr c) r sc').
+  Proof.
+    unfold Reader.recv_rd, Model.recv. rewrite headerLength_eq.
+    destruct (fill_spec false closed sc 7 s (fun H => ltac:(discriminate))) as (sc1 & Hs1 & ->).
+    unfold fill_ideal. destruct (N.leb_spec 7 (len s)) as [L|L]; destruct (N.ltb_spec (len s) 7) as [L'|L']; try lia.
+    2:{ destruct closed; cbn [fst]; left; eauto. }
+    rewrite le32_takeN, hdr_tag_takeN, hdr_typ_takeN by lia.
+    destruct (hdr_check msize (le32 s)) eqn:Hc; cbn [negb]; [|left; eauto].
+    pose proof (proj1 (hdr_check_spec lookup decode_ok _ _) Hc) as (H7 & Hm & Hsz).
+    destruct (plan_of lookup _ _ _) as [t|fixed] eqn:Hp; cbn [fst].
+    - destruct (discard_spec closed sc1 (le32 s - 7) (dropN 7 s)) as (sc2 & Hs2 & ->).
+      rewrite len_dropN. left.
+      destruct (N.leb_spec (le32 s - 7) (len s - 7)).
+      + replace (7 + (le32 s - 7)) with (le32 s) by lia. eauto.
+      + destruct closed; eauto.
+    - pose proof (plan_body_le lookup decode_ok _ _ _ _ Hp) as Hf. cbn [read_bufs].
+      destruct (readfrom_generic_any closed (body_bufs fixed (le32 s - 7)) sc1 (dropN 7 s)) as [(sc2 & ->)|(n & r & sc2 & ->)];
+        [|right; eauto].
+      rewrite (sum_body_bufs lookup decode_ok) by assumption. unfold fill_ideal. rewrite len_dropN. left.
+      destruct (N.leb_spec (le32 s - 7) (len s - 7)).
+      + rewrite takeN_takeN by lia. rewrite dropN_takeN. eauto.
+      + destruct closed; eauto.
   Qed.
 
   (** *** the whole receive loop: same events whatever the segmentation, on both paths *)
